@@ -24,6 +24,8 @@ LEVEL_TEXT = ("Every waveform of the finite alphabet is simulated whole and in t
               "simulators and the two traces are compared through the SU(2) composition law (a reference model of how rotations "
               "compose); unitarity and the identity clause are checked in every state; every beta polynomial of the design "
               "family is inverted by the real inverse SLR transform and re-simulated.")
+# (max|B| = 0.99 was tried in the thorough tier: 34 round trips were off by 1e-6 ... 6e-6, the accuracy of the cepstral
+#  minimum-phase construction degrades as |B| approaches 1; the 1e-6 tolerance is kept and the family stops at 0.95)
 LEVEL_NOTE = "Waveform samples come from a finite alphabet (exhaustive for short lengths, seeded beyond); tolerance 1e-12 (unitarity), 1e-10 (composition), 1e-6 (SLR)."
 RULE = ("product of simulators x waveform family x gradient family x position lattices, all split points; SLR: filter designs x "
         "ptype scalings x n x tb and seeded complex polynomials; non-trivial = waveform with at least one non-zero sample and >= 2 samples")
@@ -37,10 +39,10 @@ SIMS = ["abrm", "abrm.balanced", "abrm_nd.1", "abrm_nd.2", "abrm_nd.3", "abrm_hp
 
 def bounds(tier):
     return {"simulators": SIMS, "sample alphabet": "amplitudes %s x phases {1, i, e^{i pi/3}}" % (AMP,),
-            "exhaustive length": "3 (abrm, abrm_hp, blochsim 1-D, abrm_nd 1-D; thorough: all but abrm_ptx), 2 otherwise", "seeded lengths": [3, 5, 8] if tier == "quick" else [4, 5, 8, 17, 64, 256],
+            "exhaustive length": "3 (abrm, abrm_hp, blochsim 1-D, abrm_nd 1-D; thorough: 4 for these and 3 for all but abrm_ptx), 2 otherwise", "seeded lengths": [3, 5, 8] if tier == "quick" else [4, 5, 8, 17, 64, 256],
             "gradients": [0, 0.5, -0.5, 2], "positions": "1-D: {-2,-0.5,0,0.25,1,3}; 2-D/3-D: 3x3 / 2x2x2 lattices",
             "slr": {"designs": ["dzls", "dzlp", "dzmp", "dzmp reversed", "msinc"], "n": [16, 32, 64], "tb": [2, 4, 8],
-                    "scalings": ["1", "sqrt(1/2)"], "random complex": "max|B| in {0.3, 0.9}, n in {8, 16, 33}", "dzrf": "every ptype x ftype"}}
+                    "scalings": ["1", "sqrt(1/2)"], "random complex": ("max|B| in {0.3, 0.9}, n in {1, 3, 8, 16, 33}, 3 draws" if tier == "quick" else "max|B| in {0.3, 0.6, 0.9, 0.95}, n in {1, 2, 3, 5, 8, 16, 33, 64}, 8 draws"), "dzrf": "every ptype x ftype"}}
 
 
 def samples():
@@ -56,7 +58,7 @@ def gen_cases(tier, seed):
     cases = []
     S = samples()
     waves = []
-    for L in range(1, 4):
+    for L in range(1, 5 if T else 4):
         for w in itertools.product(range(len(S)), repeat=L):
             waves.append(("ex", list(w)))
     for L in ((4, 5, 8, 17, 64, 256) if T else (3, 5, 8)):
@@ -67,6 +69,8 @@ def gen_cases(tier, seed):
         for kind, w in waves:
             if kind == "ex" and len(w) == 3 and sim not in ("abrm", "abrm_hp", "blochsim.1", "abrm_nd.1") and not (T and sim != "abrm_ptx"):
                 continue
+            if kind == "ex" and len(w) == 4 and sim not in ("abrm", "abrm_hp", "blochsim.1", "abrm_nd.1"):
+                continue      # thorough: every waveform of four samples for the four 1-D simulators
             for gi in range(3):
                 if kind == "ex" and len(w) >= 2 and gi > 0 and sim in ("abrm_ptx", "abrm_nd.3", "abrm.balanced", "blochsim.nd"):
                     continue
@@ -76,9 +80,9 @@ def gen_cases(tier, seed):
             for tb in (2, 4, 8):
                 for sc in (1.0, float(np.sqrt(0.5))):
                     cases.append(dict(kind="slr", design=des, n=n, tb=tb, scale=sc))
-    for n in (8, 16, 33):
-        for mx in (0.3, 0.9):
-            for sd in range(3):
+    for n in ((1, 2, 3, 5, 8, 16, 33, 64) if T else (1, 3, 8, 16, 33)):
+        for mx in ((0.3, 0.6, 0.9, 0.95) if T else (0.3, 0.9)):
+            for sd in range(8 if T else 3):
                 cases.append(dict(kind="slr", design="random", n=n, tb=0, scale=mx, sd=sd))
     for pt in ("ex", "se", "inv", "sat"):
         for ft in ("ms", "pm", "min", "max", "ls"):
